@@ -6,6 +6,7 @@ Property theorems only (helper lemmas live in Proofs/VRange*.lean).  Vocabulary:
 disjunction over the member ranges; equal to `VC.allows` for every non-union constraint).
 -/
 import PoetryVerif.Proofs.VRangeOps
+import PoetryVerif.Proofs.VRangeDiff
 
 set_option linter.unusedSimpArgs false
 set_option linter.unusedVariables false
@@ -141,5 +142,121 @@ theorem any_laws (c : RC) (hc : c.WF) :
   refine ⟨r, hr, fun p hp hreg => ?_⟩
   rw [h p hp (hreg.mono (fun e he => by simpa [RC.bounds, VRange.bounds, VRange.any, RC.view, RC.min, RC.max] using he))]
   simp [RC.allows, VRange.allows, VRange.allowsLo, VRange.allowsHi, VRange.any]
+
+/-! ## union -/
+
+/-- **the single-range union of two ranges is exact** (`VersionRange.union` when the operands overlap or
+touch): the hull admits a regular probe iff one operand does.  `Tidy` = an absent bound is not "included". -/
+theorem range_union_single_exact (a b : VRange) (ha : a.WF) (hb : b.WF) (hta : a.Tidy) (htb : b.Tidy)
+    (u : RC) (h : rcUnionSingle (.rng a) (.rng b) = .ok (some u)) :
+    u = .rng (VRange.hull a b) ∧ (VRange.hull a b).WF ∧
+    ∀ p, p.wf = true → Regular (a.bounds ++ b.bounds) p → u.allows p = (a.allows p || b.allows p) :=
+  ⟨(VRange.union_single_exact a b ha hb hta htb u h).1, VRange.hull_WF a b ha hb,
+   (VRange.union_single_exact a b ha hb hta htb u h).2⟩
+
+example : exA.Tidy ∧ exB.Tidy ∧
+    (match rcUnionSingle (.rng exA) (.rng exB) with | .ok (some _) => true | _ => false) = true := by
+  refine ⟨⟨fun h => by simp [exA] at h, fun h => by simp [exA] at h⟩,
+    ⟨fun h => by simp [exB] at h, fun _ => rfl⟩, by decide⟩
+
+/-- the same for every pair of members (`Version` or range).  Extra hypothesis `hloc`: the pair is not
+"a version and a local build of it" (`1.0 ∪ 1.0+local` is the point *range* `[1.0+local, 1.0+local]`). -/
+theorem member_union_single_exact_partial (x y : RC) (hx : x.WF) (hy : y.WF) (htx : x.Tidy) (hty : y.Tidy)
+    (hloc : ∀ a b, x = .ver a → y = .ver b → a.allows b = true → b.allows a = true)
+    (u : RC) (h : rcUnionSingle x y = .ok (some u)) :
+    u.WF ∧ u.Tidy ∧ (∀ e ∈ u.bounds, e ∈ x.bounds ∨ e ∈ y.bounds) ∧
+    ∀ p, p.wf = true → Regular (x.bounds ++ y.bounds) p → u.allows p = (x.allows p || y.allows p) :=
+  RC.rcUnionSingle_exact x y hx hy htx hty hloc u h
+
+/-- **`VersionUnion.of` (stable sort + merge) preserves membership**: whenever it returns, every member of
+the result is well-formed, mentions only bounds of the inputs, and the result admits a regular probe iff
+some input does.  (`Good l`: members well-formed and tidy, no version/local-build pair.)
+Not proved: that it always returns, and that the result is sorted and separated — see
+`union_of_full_statement`. -/
+theorem union_of_preserves_membership_partial (l : List RC) (res : VC) (h : unionOfFlat l = .ok res)
+    (hg : Good l) :
+    Good res.flatten ∧ (∀ e ∈ res.bounds, e ∈ boundsOf l) ∧
+    ∀ p, p.wf = true → Regular (boundsOf l) p → res.allowsPlain p = anyAllows l p :=
+  unionOfFlat_sem l res h hg
+
+def union_of_full_statement : Prop :=
+  ∀ l : List RC, Good l → ∃ res, unionOfFlat l = .ok res ∧ res.WF ∧
+    ∀ p, p.wf = true → Regular (boundsOf l) p → res.allowsPlain p = anyAllows l p
+
+example : Good [.rng exA, .rng exB] ∧
+    (match unionOfFlat [.rng exB, .rng exA] with | .ok _ => true | _ => false) = true := by
+  refine ⟨⟨?_, ?_⟩, by decide⟩
+  · intro c hc
+    simp only [List.mem_cons, List.mem_nil_iff, or_false] at hc
+    rcases hc with rfl | rfl
+    · refine ⟨⟨?_, ?_⟩, ⟨fun h => by simp [exA] at h, fun h => by simp [exA] at h⟩⟩
+      · intro e he; simp [VRange.bounds, exA] at he; rcases he with rfl | rfl <;> decide
+      · intro m M hm hM; simp [exA] at hm hM; subst hm; subst hM; rw [vk_lt_iff]; decide
+    · refine ⟨⟨?_, ?_⟩, ⟨fun h => by simp [exB] at h, fun _ => rfl⟩⟩
+      · intro e he; simp [VRange.bounds, exB] at he; subst he; decide
+      · intro m M hm hM; simp [exB] at hM
+  · intro a b ha; simp at ha
+
+/-- **`a.union(b)` for two members is exact whenever it returns**, and commutative up to admitted
+versions. -/
+theorem member_union_exact_partial (x y : RC) (hx : x.WF) (hy : y.WF) (htx : x.Tidy) (hty : y.Tidy)
+    (hloc : ∀ a b, x = .ver a → y = .ver b → (a.allows b = true ↔ b.allows a = true))
+    (r r' : VC) (h : RC.union x y = .ok r) (h' : RC.union y x = .ok r') :
+    ∀ p, p.wf = true → Regular (x.bounds ++ y.bounds) p →
+      r.allowsPlain p = (x.allows p || y.allows p) ∧ r'.allowsPlain p = r.allowsPlain p := by
+  intro p hp hreg
+  have e1 := RC.union_exact x y hx hy htx hty hloc r h p hp hreg
+  have e2 := RC.union_exact y x hy hx hty htx (fun a b ha hb => (hloc b a hb ha).symm) r' h' p hp
+    (fun e he => hreg e (by simp at he ⊢; exact he.symm))
+  exact ⟨e1, by rw [e1, e2, Bool.or_comm]⟩
+
+/-! ## difference -/
+
+/-- **version ∖ member is exact** -/
+theorem version_minus_member_exact (a : Version) (c : RC) (ha : a.wf = true) (hc : c.WF)
+    (p : Version) (hp : p.wf = true) (hreg : Regular ((RC.ver a).bounds ++ c.bounds) p) :
+    ∃ r, RC.difference (.ver a) c = .ok r ∧ r.allowsPlain p = (a.allows p && !c.allows p) :=
+  ⟨_, rfl, RC.verDifference_exact a c ha hc p hp hreg⟩
+
+/-- **range ∖ range is exact whenever it returns.**  Extra hypotheses: `hec` — `allows_higher`, which compares
+the effective upper ends, agrees with the written ones (it does whenever the two upper bounds are equal or of
+different releases); `hnl` — `a`'s own two ends are not a version and a local build of it. -/
+theorem range_difference_exact_partial (a b : VRange) (ha : a.WF) (hb : b.WF) (hta : a.Tidy) (htb : b.Tidy)
+    (hec : VRange.EndsConsistent a b)
+    (hnl : ∀ m M, a.min = some m → a.max = some M → m.allows M = false ∧ M.allows m = false)
+    (res : VC) (h : RC.difference (.rng a) (.rng b) = .ok res) :
+    ∀ p, p.wf = true → Regular (a.bounds ++ b.bounds) p →
+      res.allowsPlain p = (a.allows p && !b.allows p) :=
+  VRange.difference_exact a b ha hb hta htb hec hnl res h
+
+example : VRange.EndsConsistent exA exB ∧ VRange.EndsConsistent exB exA ∧
+    (match RC.difference (.rng exB) (.rng exA) with | .ok _ => true | _ => false) = true := by
+  refine ⟨?_, ?_, by decide⟩
+  · intro h; exact absurd h (by decide)
+  · intro _ x y hx hy; simp [exB] at hy
+
+/-- **range ∖ version is exact whenever it returns**, for a version that is regular for the range's bounds
+(then the split point lies strictly inside the range). -/
+theorem range_minus_version_exact_partial (r : VRange) (v : Version) (hr : r.WF) (htr : r.Tidy)
+    (hv : v.wf = true) (hvreg : Regular r.bounds v) (res : VC)
+    (h : RC.difference (.rng r) (.ver v) = .ok res) :
+    ∀ p, p.wf = true → Regular (r.bounds ++ (RC.ver v).bounds) p →
+      res.allowsPlain p = (r.allows p && !v.allows p) :=
+  RC.rngDifferenceVer_exact r v hr htr hv hvreg res h
+
+/-! ## the property at full strength -/
+
+/-- C05 for arbitrary constraints (unions included), with the carve-out of the known finding.  Proved above:
+every non-union case of `intersect` (defined + exact), the non-union cases of `union` and `difference`
+(exact whenever they return, under the named hypotheses), `VersionUnion.of` membership preservation, the
+empty/universal laws and commutativity.  Not proved: totality of `VersionUnion.of` and of the union-level
+merge walks (`unionIntersectLoop`, `unionDiffLoop`, `rngDiffUnionLoop`) and their exactness. -/
+def C05_full_statement : Prop :=
+  ∀ a b : VC, a.WF → b.WF →
+    (∀ r x, RC.rng r ∈ a.flatten ++ b.flatten → RC.ver x ∈ a.flatten ++ b.flatten → ¬ RC.LocalMinCase r x) →
+    ∃ i u d, VC.intersect a b = .ok i ∧ VC.unionWith a b = .ok u ∧ VC.difference a b = .ok d ∧
+      ∀ p, p.wf = true → Regular (a.bounds ++ b.bounds) p →
+        ∃ pa pb, a.allows p = .ok pa ∧ b.allows p = .ok pb ∧
+          i.allows p = .ok (pa && pb) ∧ u.allows p = .ok (pa || pb) ∧ d.allows p = .ok (pa && !pb)
 
 end Poetry.C05
